@@ -632,6 +632,27 @@ def search(res, tier, boost=False):
         res.count(('linear', domain), True)
         if abs(v[2] - (al * v[0] + be * v[1])) > 1e-12 * (abs(v[0]) + abs(v[1]) + 1e-12):
             res.violation('C08:not-linear-in-u0', dict(domain=domain, values=v))
+        # the same three data through the vector API on the process-pool path, one after the other in this process
+        # with the very same element list: every operator must deliver ITS OWN loads (= its serial linform values)
+        segs = [seg, Seg(0.25, 0.5, s + side / 2, s + side, gamma.pw_gamma[pi_])]
+        vp = []
+        for f in (fs[0], fs[1], lambda xy: al * fs[0](xy) + be * fs[1](xy)):
+            _, _, Mf = operator(domain, f)
+            try:
+                with contextlib.redirect_stdout(io.StringIO()):
+                    got = np.asarray(Mf.linform_vector(elems=segs, use_mp=True), dtype=float).reshape(-1)
+                want = np.array([Mf.linform(e)[0] for e in segs])
+            except Exception as exc:  # noqa: BLE001
+                res.violation('C08:linform-vector-raises', dict(domain=domain, error=repr(exc)[:300]))
+                break
+            vp.append(got)
+            res.count(('linear-vector-pool', domain, len(vp)), True)
+            if not np.array_equal(got, want):
+                res.violation('C08:vector-not-own-loads:pool', dict(domain=domain, datum=len(vp), pool=[float(x) for x in got],
+                              serial=[float(x) for x in want], note='three operators (different u0) called one after the other'))
+                break
+        if len(vp) == 3 and np.max(np.abs(vp[2] - (al * vp[0] + be * vp[1]))) > 1e-12 * (np.max(np.abs(vp[0])) + np.max(np.abs(vp[1])) + 1e-12):
+            res.violation('C08:not-linear-in-u0:vector', dict(domain=domain, values=[[float(x) for x in v_] for v_ in vp]))
         # pointwise domain-quadrature evaluation vs closed form for t >= 0.05 side^2
         if problem == 'Singular' or domain != 'LShape':
             for _ in range(3):
